@@ -85,10 +85,11 @@ def _fixture_job(args):
 def run(ctx):
     bases = ctx.pick(["hexflower", "brick33", "squares33"], ["hexflower", "brick33", "squares33", "hex33", "irregular", "hex43"])
     ks_cfg = ctx.pick("MC_Interfaces.cfg", "MC_Interfaces_thorough.cfg")
+    big_cfg = "MC_Interfaces_k02.cfg"      # the 2^15 / 2^12 subset spaces of the two large bases: two sampling densities
     jobs, payloads = [], {}
     case = 0
     for b in bases:
-        res = ctx.mc("MC_Interfaces", ks_cfg, env={"BASE_FILE": os.path.join(core.VERIF, "models", "catalogue", b + ".json")},
+        res = ctx.mc("MC_Interfaces", big_cfg if b in ("irregular", "hex43") else ks_cfg, env={"BASE_FILE": os.path.join(core.VERIF, "models", "catalogue", b + ".json")},
                      timeout=3000)
         for inst in res.printed:
             case += 1
